@@ -244,6 +244,11 @@ func runMatrix(P *core.Program, verbose bool) {
 		}
 		sort.Strings(ks)
 		fmt.Printf("%s %d %s\n", id, len(v), strings.Join(uniq(ks), ","))
+		if os.Getenv("ELYSLINT_ALL") == id {
+			for _, o := range R.Obls {
+				fmt.Printf("    ALL %s: [%s] %s — %s\n", o.Pos, o.Status, o.Key(), o.Detail)
+			}
+		}
 		if verbose {
 			for _, o := range v {
 				fmt.Printf("    %s: [%s] %s — %s\n", o.Pos, o.Status, o.Key(), o.Detail)
